@@ -80,3 +80,7 @@ def register_p2(reg, prop):
             "ncalls('logged') <= 1",
         ],
         frame=None))
+    from pyvc.contracts import alias_loops_by_order
+    for k_ in list(reg.fns):
+        if k_.startswith("hippolyzer.lib.proxy.http_event_manager:MITMProxyEventManager._handle_response"):
+            alias_loops_by_order(reg.fns[k_])
